@@ -35,6 +35,22 @@ def gen_cases(rng, tier):
                 s = 0 if nb == 0 else (1 if na == 0 else rng.randrange(2))
                 cases.append({'kind': 'direct', 'norb': norb, 'na': na, 'nb': nb, 'ops': [[2 * i + s, 1], [2 * j + s, 0]],
                               'seed': rng.randrange(10 ** 6), 'modes': ['PY1']})
+    # qubit conversion and sector detection, both paths in one process: a dominant sector next to weak ones whose
+    # amplitudes sit on a decade grid, thresholds on the same grid (below, at, between and above the weak amplitudes)
+    for _ in range(40 if tier == 'quick' else 300):
+        norb = rng.randint(1, 3)
+        nq = 2 * norb
+        st = []
+        for ix in range(1 << nq):
+            if rng.random() < 0.4:
+                mag = 10.0 ** (-rng.randint(0, 6))
+                ph = rng.choice([(1, 0), (0, 1), (0.6, 0.8), (-0.8, 0.6), (0.6, -0.8)])
+                st.append([ix, mag * ph[0], mag * ph[1]])
+        st.append([rng.randrange(1 << nq), 1.0, 0.0])
+        st = [list(x) for x in {x[0]: x for x in st}.values()]
+        thr = rng.choice([0.5, 2.0, 3.0]) * 10.0 ** (-rng.randint(1, 6))
+        cases.append({'kind': 'cirqpair', 'norb': norb, 'state': st, 'thr': thr,
+                      'code': rng.choice([None, None, 'jw']), 'modes': ['PY1']})
     return cases
 
 
@@ -134,6 +150,24 @@ def run_impl(case, mode):
             res['ap_diff'] = float(numpy.abs(out['C']['ap'] - out['PY']['ap']).max())
             res['ev_norm'] = [float(numpy.linalg.norm(out['C']['ev'])), float(numpy.linalg.norm(out['PY']['ev'])), float(numpy.linalg.norm(data))]
         return res
+    if case['kind'] == 'cirqpair':
+        norb = case['norb']
+        st = numpy.zeros(1 << (2 * norb), dtype=numpy.complex128)
+        for ix, re, im in case['state']:
+            st[ix] = complex(re, im)
+        code = c07._code(case['code'], 2 * norb)
+        out = {}
+        for label, flag in (('C', True), ('PY', False)):
+            _flip(flag)
+            try:
+                w = fqe.from_cirq(st.copy(), case['thr'], code) if code is not None else fqe.from_cirq(st.copy(), case['thr'])
+                back = fqe.to_cirq(w, code) if code is not None else fqe.to_cirq(w)
+                out[label] = {'keys': sorted([int(a), int(b)] for a, b in w.sectors()), 'amps': fqeio.read_state(w),
+                              'back': [[int(i), float(back[i].real), float(back[i].imag)] for i in numpy.nonzero(back)[0]]}
+            except Exception as e:  # noqa
+                out[label] = {'exc': type(e).__name__ + ':' + str(e)[:80]}
+        _flip(True)
+        return {'pair': out}
     raise ValueError(case['kind'])
 
 
@@ -218,6 +252,40 @@ def compare(case, got, exp, mode):
     if 'exc' in got or 'crash' in got:
         return ['raised %s: %s' % (got.get('exc', 'CRASH'), str({k: got[k] for k in got if k != 'tb'})[:300])]
     bad = []
+    if case['kind'] == 'cirqpair':
+        c, p = got['pair']['C'], got['pair']['PY']
+        if ('exc' in c) != ('exc' in p):
+            return ['CIRQ one path raised, the other answered: C %s / Python %s' % (c.get('exc'), p.get('exc'))]
+        if 'exc' in c:
+            return bad
+        if c['keys'] != p['keys']:
+            bad.append('CIRQ from_cirq(thresh=%g) finds sectors %s on the C path and %s on the Python path (%d qubits)' %
+                       (case['thr'], c['keys'], p['keys'], 2 * case['norb']))
+        else:
+            # amplitudes up to 1e-7 relative: the reference path goes through OpenFermion operators and a Cirq simulator, which
+            # renormalises a state whose norm is within 1.5e-8 of 1 (see DESIGN.md, corrections)
+            def close(x, y, what):
+                dx = {tuple(e[:-2]): complex(e[-2], e[-1]) for e in x}
+                dy = {tuple(e[:-2]): complex(e[-2], e[-1]) for e in y}
+                scale = max([abs(v) for v in dx.values()] + [abs(v) for v in dy.values()] + [1e-300])
+                for k in set(dx) ^ set(dy):
+                    # the reference path drops amplitudes at OpenFermion's EQ_TOLERANCE (1e-8): positions are compared
+                    # above 1e-7 of the largest amplitude; the generated amplitudes are >= 1e-6
+                    if abs(dx.get(k, dy.get(k))) <= 1e-7 * scale:
+                        dx.pop(k, None)
+                        dy.pop(k, None)
+                if set(dx) != set(dy):
+                    return '%s: different non-zero positions on the two paths (%d vs %d)' % (what, len(dx), len(dy))
+                worst = max([abs(dx[k] - dy[k]) for k in dx] + [0.0])
+                if worst > 1e-7 * scale:
+                    return '%s: amplitudes differ between the C and the Python path by %.3g (scale %.3g)' % (what, worst, scale)
+                return None
+            for msg in (close(c['amps'], p['amps'], 'CIRQ from_cirq(thresh=%g)' % case['thr']),
+                        close(c['back'], p['back'], 'CIRQ to_cirq(from_cirq(state, thresh=%g))' % case['thr'])):
+                if msg:
+                    bad.append(msg)
+                    break
+        return bad
     if 'exc_pair' in got:
         if (got['exc_pair'][0] is None) != (got['exc_pair'][1] is None):
             bad.append('one path raised, the other answered: C %s / Python %s' % tuple(got['exc_pair']))
@@ -255,6 +323,8 @@ def nontrivial(case, exp):
 def case_class(case):
     if case['kind'] == 'sub':
         return case['sub']
+    if case['kind'] == 'cirqpair':
+        return 'cirqpair/norb%d/%s' % (case['norb'], case['code'])
     return 'direct/norb%d/%d,%d' % (case['norb'], case['na'], case['nb'])
 
 
